@@ -299,20 +299,20 @@ func (rs *realServer) resolve(methods []string, target string, si *specInfo) res
 func realHeaders(cfg Config, f fam) []Member {
 	type k struct{ scheme, sep, cred string }
 	want := map[k]bool{
-		{"absent", "-", "absent"}:              true,
-		{"Basic", "sp", "basic-right"}:         true,
+		{"absent", "-", "absent"}:               true,
+		{"Basic", "sp", "basic-right"}:          true,
 		{"Basic", "sp", "basic-wrong-password"}: true,
 		{"Basic", "sp", "basic-empty-password"}: true,
-		{"Basic", "sp", "token-as-password"}:   true,
-		{"Basic", "sp", "token-right"}:         true,
-		{"Basic", "none", "empty"}:             true,
-		{"Bearer", "sp", "token-right"}:        true,
-		{"Bearer", "sp", "token-plus-suffix"}:  true,
-		{"Bearer", "sp", "token-prefix"}:       true,
-		{"Bearer", "sp", "basic-right"}:        true,
-		{"Bearer", "sp", "garbage"}:            true,
-		{"Bearer", "none", "empty"}:            true,
-		{"empty", "none", "token-right"}:       true,
+		{"Basic", "sp", "token-as-password"}:    true,
+		{"Basic", "sp", "token-right"}:          true,
+		{"Basic", "none", "empty"}:              true,
+		{"Bearer", "sp", "token-right"}:         true,
+		{"Bearer", "sp", "token-plus-suffix"}:   true,
+		{"Bearer", "sp", "token-prefix"}:        true,
+		{"Bearer", "sp", "basic-right"}:         true,
+		{"Bearer", "sp", "garbage"}:             true,
+		{"Bearer", "none", "empty"}:             true,
+		{"empty", "none", "token-right"}:        true,
 	}
 	if f.multi { // thorough
 		for _, x := range []k{
